@@ -12,7 +12,8 @@ def engines : List (String × (List String → String)) := [
   ("pool", Wpull.Pool.handle),
   ("url", Wpull.Url.handle),
   ("filter", Wpull.Filter.handle),
-  ("warc", Wpull.Warc.handle)
+  ("warc", Wpull.Warc.handle),
+  ("request", Wpull.Request.handle)
 ]
 
 def handle (line : String) : String :=
